@@ -27,7 +27,28 @@ RULE = ("exhaustive: every DAG on <=3 (quick) / <=4 (thorough) labelled nodes x 
         "rejection (ValueError; the model rejects exactly when the order differs, as the code does) OR, if accepted, "
         "exactly the posterior for the named likelihood; tiny-probability networks (entries down to 2^-40, several rare "
         "evidence variables, P(e) in 1e-6..1e-30, near-zero query marginals) compared at 1e-9 PURELY relative.  Non-trivial: >=1 edge or evidence, P(e)>0; "
-        "distinct = distinct (network, query, evidence, virtual evidence)")
+        "distinct = distinct (network, query, evidence, virtual evidence).  Generalisation classes: A sessions on one engine AND "
+        "one model object with edits through add_cpds(existing variable), remove_node, add_node+add_edge, remove_edge, "
+        "add_edge in between, same and fresh engines, oracle = the CURRENT network read back from the object; B every "
+        "query checks that variables/evidence/virtual_evidence/elimination_order (and predict_probability's frame) equal a "
+        "deep snapshot afterwards, sessions hand over the SAME refilled list/dict objects; C every returned table is "
+        "overwritten in place after the comparison, later answers on the same model must not notice; CPDs are built from "
+        "nested lists, C-contiguous / Fortran-order ndarrays and slices of a reused buffer; D predict_probability on 1-4 "
+        "rows with range/shifted/permuted/gapped/duplicate/string index, shuffled columns, object/native/categorical "
+        "dtype with unused categories; E node names that are substrings of one another, keyword-like, x with __x (the name "
+        "of x's virtual child), 1 with '1', int/str/tuple/mixed; F state names 1-based, permuted ints, booleans, equal across "
+        "variables; a CPD listing a parent's states in another order must be refused (badstates), likewise virtual "
+        "evidence; G families with 8 parents / combs (>= 9 variables in a factor) with integer names >= 8, cardinality 1, "
+        "single-node and edgeless models, evidence None vs {}, virtual_evidence None vs [], tuple of variables, falsy "
+        "names/states 0/False (no optional numeric bounds exist on this route); H entries 2^-6..2^-300 (P(e) down to "
+        "~1e-180), near-zero marginals, tables differing by 2^-30..2^-40, exact zeros and P(e)=0 (excluded input, "
+        "recorded), purely relative tolerance in the tiny stream; I numpy and torch (float64) backends; J every "
+        "elimination_order, joint, show_progress, and both BayesianNetwork front ends; K rejected calls inside "
+        "sessions (query variable also observed, virtual evidence on an unknown variable / wrong cardinality / other "
+        "state order, a LATER invalid entry after a valid one, malformed explicit orders): ValueError iff "
+        "Model.query_rejects <> 0, engine and arguments untouched, later answers checked; L insertion order of nodes, "
+        "edges and CPDs, parent order, evidence and virtual-evidence order, explicit orders, hash seeds; M budget: the "
+        "streams are shuffled by tools/check.py")
 TRUSTED_BASE = ["numpy/opt_einsum contraction and DiscreteFactor array primitives are modelled by their documented "
                 "pointwise meaning (Base/RefFactor)",
                 "python set/dict iteration order is the explicit parameter `ord` of the model; results compared as "
@@ -440,6 +461,9 @@ def pick_query(rng, n, cards, allow_vev):
             if cards[v] >= 2 and rng.random() < 0.25:
                 t.append(rng.choice(all_perms(cards[v])))  # state list in an order of its own
             vev.append(t)
+            if rng.random() < 0.15:
+                # a second, different likelihood on the same variable
+                vev.append([v, [fr(Fraction(rng.choice([1, 2, 3, 5, 8]), 8)) for _ in range(cards[v])]])
     return q, ev, vev
 
 
@@ -584,8 +608,15 @@ def names_of(case):
     rng = random.Random(case["nameseed"])
     n = case.get("n_total", case["n"])
     if case["nstyle"] == "substr":
-        pool = ["x1", "x10", "x", "x100", "G", "G2", "G20", "evidence", "variables", "None", "0", "1", "values", "__x"]
+        pool = ["x1", "x10", "x", "x100", "G", "G2", "G20", "evidence", "variables", "None", "0", "1", "values", "__x",
+                "___x", 1, 0]
         rng.shuffle(pool)
+        # "x" with "__x" (the name of x's virtual child) and 1 with "1" often together
+        if n >= 2 and rng.random() < 0.3:
+            pool = rng.choice([["x", "__x"], ["x", "__x", "___x"], [1, "1"], ["0", 0]]) + [y for y in pool if y not in ("x", "__x", "___x", 1, "1", "0", 0)]
+        if case.get("kind") == "front":
+            # predict_probability builds its column labels as name + "_" + str(state): string names only
+            pool = [y for y in pool if isinstance(y, str)]
         nn = pool[:n]
     else:
         nn = common.node_names(rng, n, case["nstyle"])
@@ -873,20 +904,6 @@ def scribble(res):
 
 
 def one_query(case, drv, m, nn, sn, Q, E, vev, eo, joint, rng, tags, engine=None, reuse=None):
-    r = _one_query(case, drv, m, nn, sn, Q, E, vev, eo, joint, rng, tags, engine, reuse)
-    if isinstance(r, dict) and not r.get("ok") and r.get("kind") != "argument-mutated":
-        # diagnosed class: the auxiliary child "__" + str(X) of a virtual evidence on X is the name of an EXISTING node
-        live_names = {x for x in m.nodes() if isinstance(x, str)}
-        clash = [t[0] for t in vev if ("__" + str(nn[t[0]])) in live_names]
-        if clash:
-            r["detail"]["clash"] = clash
-            r["detail"]["was"] = r["kind"]
-            r["kind"] = "virtual-evidence-name-collision"
-            r["finding"] = "virtual-evidence-child-name-collision"
-    return r
-
-
-def _one_query(case, drv, m, nn, sn, Q, E, vev, eo, joint, rng, tags, engine=None, reuse=None):
     """run one configuration on pgmpy, the model and the spec; returns None or a bad(...) outcome"""
     from pgmpy.inference import VariableElimination
     from pgmpy.factors.discrete import TabularCPD
@@ -897,15 +914,13 @@ def _one_query(case, drv, m, nn, sn, Q, E, vev, eo, joint, rng, tags, engine=Non
     # (the likelihood is a function of the state NAME), the CPD handed to pgmpy is permuted consistently
     vperm = [(list(t[2]) if len(t) > 2 else list(range(cards[t[0]]))) for t in vev]
     vev = [[t[0], t[1]] for t in vev]
-    # virtual nodes get ids n + v
-    vcards = [[n + v, 2] for v, _ in vev]
-    allcards = cards + [0] * n
-    allsn = list(sn) + [[0, 1]] * n
-    for v, _ in vev:
-        allcards[n + v] = 2
-        idxn[repr("__" + str(nn[v]))] = n + v  # pgmpy names the virtual child "__" + str(var)
+    # every virtual-evidence ENTRY gets a fresh binary child (the code picks a fresh node name, the model a fresh id);
+    # two entries on one variable therefore both count (their likelihoods multiply, as in Spec.weight)
+    vcards = [[n + k, 2] for k in range(len(vev))]
+    allcards = cards + [2] * len(vev)
+    allsn = list(sn) + [[0, 1]] * len(vev)
     wire = model_bn(case, m, nn, vcards)
-    vev_model = [[v, n + v, [Fraction(a, b) for a, b in vals]] for v, vals in vev]
+    vev_model = [[v, n + k, [Fraction(a, b) for a, b in vals]] for k, (v, vals) in enumerate(vev)]
     vev_spec = [[v, [Fraction(a, b) for a, b in vals]] for v, vals in vev]
     pe, sjoint, sper = spec_tables(drv, wire, Q, E, vev_spec, cards, sn)
     detail = {"Q": Q, "E": E, "vev": vev, "eo": str(eo), "joint": joint}
@@ -930,11 +945,6 @@ def _one_query(case, drv, m, nn, sn, Q, E, vev, eo, joint, rng, tags, engine=Non
     res, pure = do_query(ve, [nn[q] for q in Q], evidence, virt, parg, joint, rng, reuse)
     if not pure:
         return bad("argument-mutated", detail)
-    if isinstance(res, Exception) and not (isinstance(res, ValueError) and reordered):
-        detail['impl'] = repr(res)[:200]
-        live_names = {x for x in m.nodes() if isinstance(x, str)}
-        if any(("__" + str(nn[v])) in live_names for v, _ in vev):
-            return bad("exception", detail)
     if isinstance(res, ValueError) and reordered:
         tags.append("vev reordered: rejected (ValueError)")
         return "rejected"
@@ -972,7 +982,13 @@ def _one_query(case, drv, m, nn, sn, Q, E, vev, eo, joint, rng, tags, engine=Non
         tm = table_of_model(mod[q], allcards, allsn)
         ts = spec[q]
         d_im = cmp_tables(ti, tm, rel)
-        d_ms = None if tm == ts else "model != brute-force posterior"
+        if case.get("_live"):
+            # after remove_node pgmpy holds re-normalised float columns (thirds ...) that do not sum to 1 exactly, so
+            # pruning a barren node changes the exact rational in the 17th digit: compare at 1e-12 there
+            d_ms = None if (set(tm) == set(ts) and all(abs(tm[k_] - ts[k_]) <= Fraction(1, 10**12) * max(1, abs(ts[k_]))
+                                                       for k_ in ts)) else "model != brute-force posterior (1e-12)"
+        else:
+            d_ms = None if tm == ts else "model != brute-force posterior"
         d_is = cmp_tables(ti, ts, rel)
         if d_is:
             detail.update({"impl": sorted((sorted(k), v) for k, v in ti.items()),
